@@ -778,7 +778,6 @@ fn main() {
     let mut n_oracle_only = 0usize;
     let mut n_oracle_only_nontrivial = 0usize;
     let mut n_modelled_eligible = 0usize;
-    let mut big_range_sent = 0usize;
     let mut pending: Vec<(usize, String, serde_json::Value, bool, Vec<String>)> = Vec::new();
     let quick_target = 4000usize;
     // known-finding classes are reported 20 times each at most (all are counted), so that they
@@ -840,11 +839,9 @@ fn main() {
         let eligible = has_model(c.bk, &c.name) && !cell_unmodelled(c.bk, &c.name, recv);
         // results too large to print as a Gallina term are compared on the implementation side only
         let size = match &o { Outcome::Ok(v) => value_size(v), _ => 0 };
-        let mut printable = size <= 400;
-        if !printable && thorough && c.name == "range" && big_range_sent < 2 {
-            printable = true;
-            big_range_sent += 1;
-        }
+        // (a 100 000-element list literal is beyond what coqc reads: the cap boundary itself is
+        // covered by the implementation-side range law on every cell and by the error cell at 100 001)
+        let printable = size <= 400;
         if !(eligible && printable) {
             n_oracle_only += 1;
             if nontrivial {
